@@ -211,6 +211,7 @@ type Hold struct {
 	Nth        int           `json:"nth"`
 	UntilPoint string        `json:"until"`
 	UntilCount int           `json:"count"`
+	Arrived    bool          `json:"arrived,omitempty"` // count arrivals at UntilPoint (also goroutines held there), not passages
 	TimeoutUs  int           `json:"timeout_us"`
 	timeout    time.Duration `json:"-"`
 }
@@ -226,7 +227,7 @@ type Free struct {
 	rng      map[int]*uint64
 	seed     uint64
 	// OnEvent is called under the log mutex, in log order.
-	OnEvent func(ev Event)
+	OnEvent  func(ev Event)
 	HoldsHit int
 }
 
@@ -294,7 +295,11 @@ func (f *Free) Handler(point string, args ...interface{}) {
 		}
 		deadline := time.Now().Add(to)
 		f.HoldsHit++
-		for f.passed[h.UntilPoint] < h.UntilCount && time.Now().Before(deadline) {
+		cnt := f.passed
+		if h.Arrived {
+			cnt = f.arrivals
+		}
+		for cnt[h.UntilPoint] < h.UntilCount && time.Now().Before(deadline) {
 			f.mu.Unlock()
 			time.Sleep(20 * time.Microsecond)
 			f.mu.Lock()
